@@ -258,6 +258,23 @@ def fam_fanout(rng, n, thorough=False):
         steps.append({"op": "wait_writes"})
         steps.append({"op": "quiesce"})
         out.append({"name": "fanout/%d" % i, "conf": c, "endpoints": customs(k), "steps": steps})
+    # a steady stream that lasts three write timeouts (one item every 20 ms for 1.3 s under a 400 ms write timeout) on
+    # connections with per-write deadlines: every item reaches the peer
+    for kind in ["tcp_server", "tcp_client", "udp_client"]:
+        t = Tags(18000 + 200 * ["tcp_server", "tcp_client", "udp_client"].index(kind))
+        if kind == "tcp_server":
+            steps = [{"op": "peer_connect", "ep": 0, "peer": 1}, {"op": "wait_open", "ep": 0, "n": 1}]
+        else:
+            steps = [{"op": "wait_open", "ep": 0, "n": 1}, {"op": "sleep", "ms": 20}]
+        steps.append(write(1, "MsgAll", t.next(), sync=True))
+        if kind == "udp_client":
+            steps.append({"op": "wait_peer", "ep": 0, "peer": 1})
+        for j in range(65):
+            steps.append(write(1, "MsgAll" if j % 3 else "MsgTo", t.next(), ep=0 if j % 3 == 0 else None, sync=True))
+            steps.append({"op": "sleep", "ms": 20})
+        steps.append({"op": "quiesce", "ms": 600})
+        out.append({"name": "fanout/steady_stream_longer_than_write_timeout_%s" % kind, "conf": conf(write_ms=400, reconnect_ms=100),
+                    "endpoints": [{"kind": kind}], "steps": steps})
     # a backlog behind a transport write that fails (plain error, deadline exceeded, a net timeout, unexpected EOF, closed pipe),
     # then the transport works again: what reaches the wire is still in submission order
     for j, err in enumerate(["", "deadline", "net_timeout", "eof", "closed_pipe"]):
@@ -472,23 +489,23 @@ def fam_stall(rng, positions):
                 steps.append(write(1, "MsgAll", t.next(), sync=True))
             steps.append({"op": "quiesce", "ms": 1500})
             out.append({"name": "stall/unencodable_%s_v%d_at_%d" % (bad, v, pos), "conf": conf(version=v), "endpoints": customs(2), "steps": steps})
-    # many consecutive failures (12 unencodable items / 12 failing transport writes), then valid writes
-    for v, kind in [(2, "id_outside"), (1, "v1_big"), (2, "failn")]:
-        t = Tags(68000 + 100 * v + (50 if kind == "failn" else 0))
+    # many consecutive failures (12 and 130 unencodable items / failing transport writes), then valid writes
+    for v, kind, nfail in [(2, "id_outside", 12), (1, "v1_big", 12), (2, "failn", 12), (2, "failn", 130), (2, "id_outside", 130)]:
+        t = Tags(68000 + 100 * v + (50 if kind == "failn" else 0) + 3 * nfail)
         steps = opens(2) + [write(1, "MsgAll", t.next(), sync=True)]
         if kind == "failn":
-            steps.append({"op": "twrite_mode", "ep": 0, "mode": "failn", "at": 12})
-            for j in range(12):
+            steps.append({"op": "twrite_mode", "ep": 0, "mode": "failn", "at": nfail})
+            for j in range(nfail):
                 steps.append(write(1, "MsgAll", t.next(), sync=True))
                 steps.append({"op": "sleep", "ms": 2})
         else:
-            for j in range(12):
+            for j in range(nfail):
                 steps.append(write(1, "MsgAll", t.next(), sync=True, bad=kind))
         steps.append({"op": "sleep", "ms": 100})
         for j in range(5):
             steps.append(write(1, "MsgAll", t.next(), sync=True))
         steps.append({"op": "quiesce", "ms": 1500})
-        out.append({"name": "stall/twelve_consecutive_%s_v%d" % (kind, v), "conf": conf(version=v), "endpoints": customs(2), "steps": steps})
+        out.append({"name": "stall/%d_consecutive_%s_v%d" % (nfail, kind, v), "conf": conf(version=v), "endpoints": customs(2), "steps": steps})
     # failures that go on for longer than the write timeout (300 ms here): 8 failing transport writes / 8 unencodable items
     # 100 ms apart, then the transport works again and valid writes follow
     for kind in ["failn", "id_outside"]:
@@ -683,6 +700,11 @@ def fam_auto(rng, n, thorough=False):
                      hb_autopilot=rng.choice([0, 3, 12]), skip_hb_rate=False, comp=rng.choice([0, 5]), version=rng.choice([1, 2]))
             steps = opens(k) + [{"op": "sleep", "ms": period * 12}]
             out.append({"name": "auto/hb_%s_%s_%d" % (dialect, "off" if disable else "on", period), "conf": c, "endpoints": customs(k), "steps": steps})
+    # a dialect whose version is 0 (the last byte of the heartbeat payload is then zero), both protocol versions
+    for ver in (1, 2):
+        out.append({"name": "auto/hb_dialect_version_0_v%d" % ver,
+                    "conf": conf(dialect="common_v0", hb_disable=False, hb_period_ms=20, skip_hb_rate=False, version=ver, sr_enable=True),
+                    "endpoints": customs(2), "steps": opens(2) + [feed(0, "hb", 88801, sys=2, comp=1, autopilot=3), {"op": "sleep", "ms": 240}]})
     # spacing: a long period (500 ms) on two channels for 6.5 s - every gap is judged, not only the count
     out.append({"name": "auto/hb_spacing_500", "conf": conf(hb_disable=False, hb_period_ms=500, skip_hb_rate=False, hb_systype=2),
                 "endpoints": customs(2), "steps": opens(2) + [{"op": "sleep", "ms": 6500}]})
@@ -700,7 +722,8 @@ def fam_auto(rng, n, thorough=False):
     t = Tags(89500)
     steps = opens(1)
     at = 0
-    for (sec, sysid) in [(0.1, 2), (10, 2), (20, 3), (25, 2), (31.5, 2), (33, 3), (45, 2), (52, 3), (62.5, 2)]:
+    # sender C (system 4): 1 s, then silent until 59 s (due again), then 61.5 s (not due: 2.5 s after its last burst)
+    for (sec, sysid) in [(0.1, 2), (1, 4), (10, 2), (20, 3), (25, 2), (31.5, 2), (33, 3), (45, 2), (52, 3), (59, 4), (61.5, 4), (62.5, 2)]:
         steps.append({"op": "sleep", "ms": int(sec * 1000) - at})
         at = int(sec * 1000)
         steps.append(feed(0, "hb", t.next(), sys=sysid, comp=1, autopilot=3))
@@ -756,6 +779,18 @@ def fam_links(rng, thorough=False):
                 steps.append(write(1, "MsgAll", t.next(), bad="id_outside"))
         steps += [{"op": "wait_writes"}, {"op": "quiesce", "ms": 1500}]
         out.append({"name": "links/v%d_%s" % (ver, "keyed" if keyed else "plain"), "conf": c, "endpoints": customs(3), "steps": steps})
+    # heartbeats, stream requests and application messages of a node whose dialect has version 0 (the heartbeat's last
+    # payload byte is then zero: v1 must not truncate it), both protocol versions
+    for ver in (1, 2):
+        t = Tags(117000 + 100 * ver)
+        steps = opens(2) + [feed(0, "hb", t.next(), sys=2, comp=1, autopilot=3)]
+        for j in range(6):
+            steps.append(write(1, "MsgAll", t.next(), sync=True))
+            steps.append({"op": "sleep", "ms": 30})
+        steps.append({"op": "quiesce", "ms": 400})
+        out.append({"name": "links/dialect_version_0_v%d" % ver,
+                    "conf": conf(dialect="common_v0", hb_disable=False, hb_period_ms=20, version=ver, sr_enable=True),
+                    "endpoints": customs(2), "steps": steps})
     # a serial port (and a custom transport) whose write stalls for longer than the write timeout and then completes, with
     # more writes queued behind it: every frame still goes out once, whole, with gapless sequence numbers
     for kind in ["serial", "custom"]:
